@@ -9,6 +9,8 @@ mod c03;
 mod c08;
 #[cfg(kani)]
 mod c14;
+#[cfg(kani)]
+mod c18;
 
 /// runner self-test: a harness that must FAIL and replay natively (never part of a property)
 #[cfg(kani)]
